@@ -1,7 +1,8 @@
 /* threads.c — correspondence harness for C13 (threads are isolated; join publishes; Mutex excludes).
  *
  * One case per line:   <nmutex>|<sched>|<prog0>|<prog1>|...      (same text the OCaml driver reads)
- *   prog0 is executed by the main thread, prog<u> by a Cello Thread created by `S<u>` in prog0.
+ *   prog0 is executed by the main thread, prog<u> by a Cello Thread created by the `S<u>` of its parent
+ *   (prog0 or another worker program); only the creator joins (`J<u>`) and reads (`P<u>`) it.
  *   tokens:  a0 a1  u<i>  c  s<k>,<v>  g<k>  m<k>  r<k>  e<v>  w<k>,<n>  o  y  t<e>
  *            [ body ]<e>,<e> handler }      try { body } catch (x in e,e) { handler }   (0..2 classes)
  *            L<m> U<m> T<m>  W<m>( body )  Q<m>( body )  i<m>     S<t> J<t> P<t>     (Q: if (trylock) { body; unlock })
@@ -50,7 +51,8 @@ struct TCtx {
   int fin[MAXOBJ]; int finown[MAXOBJ]; int nfin;
   uint64_t rnd;
   int alone;
-  int spawned, joined;
+  int spawned, joined, parent;
+  var* kids;                   /* Thread objects this thread created: an array in ITS frame (root of ITS collector) */
   long incs[MAXM];
 };
 
@@ -63,7 +65,7 @@ static var mx[MAXM];
 static volatile long cell[MAXM];
 static volatile int inside[MAXM];
 static volatile int insec[MAXM];
-static int n_qskip;
+static int n_qskip, n_unjoined;
 static int n_overlap, n_miss, n_cross, n_double, n_rootkill, n_stale, n_running, n_maxpar;
 static int nthreads, nmutex;
 static var* thr;             /* the Thread objects: an array in the main thread's frame (a root of its collector) */
@@ -388,8 +390,19 @@ static void run_prog(struct TCtx* c) {
   me = c;
   int r = __sync_add_and_fetch(&n_running, 1);
   int mp; while (r > (mp = n_maxpar)) { if (__sync_bool_compare_and_swap(&n_maxpar, mp, r)) break; }
+  var kids[MAXT];
+  memset(kids, 0, sizeof kids);
+  c->kids = kids;
   exec_block(c, c->prog);
   __sync_fetch_and_sub(&n_running, 1);
+  if (c->tid != 0 && !c->alone) {
+    /* a thread must not end before the threads it created (their Thread objects may belong to its collector) */
+    for (int u = 1; u < nthreads; u++) {
+      struct TCtx* o = &ctx[c->phase][u];
+      if (o->spawned && o->parent == c->tid && !o->joined) { join(thr[u]); o->joined = 1; flush_fin(o, 'x'); __sync_fetch_and_add(&n_unjoined, 1); }
+    }
+  }
+  c->kids = NULL;
   /* the roots die with this frame */
   c->nroots = 0; c->roots = NULL;
 }
@@ -408,16 +421,16 @@ static var worker_function_object = NULL;
 static void do_spawn(struct TCtx* c, long u) {
   struct TCtx* o = &ctx[c->phase][u];
   if (u <= 0 || u >= nthreads || o->spawned) return;
-  o->spawned = 1;
-  thr[u] = managed_threads ? new(Thread, worker_function_object) : new_raw(Thread, worker_function_object);
+  o->spawned = 1; o->parent = c->tid;
+  c->kids[u] = thr[u] = managed_threads ? new(Thread, worker_function_object) : new_raw(Thread, worker_function_object);
   call(thr[u], targ[u]);
-  if (++done_spawns >= total_spawns) go_flag = 1;
+  if (c->tid == 0 && ++done_spawns >= total_spawns) go_flag = 1;
 }
 
 static void do_join(struct TCtx* c, long u) {
   struct TCtx* o = &ctx[c->phase][u];
-  if (u <= 0 || u >= nthreads || !o->spawned || o->joined) return;
-  go_flag = 1;
+  if (u <= 0 || u >= nthreads || !o->spawned || o->joined || o->parent != c->tid) return;   /* only the creator joins */
+  if (c->tid == 0) go_flag = 1;
   join(thr[u]);
   o->joined = 1;
   /* probes finalised while the thread's collector was torn down (recorded by the thread itself) */
@@ -500,7 +513,7 @@ static void one_case(char* line) {
   go_flag = 1;
   int unjoined = 0;
   for (int t = 1; t < nthreads; t++)
-    if (ctx[1][t].spawned && !ctx[1][t].joined) { unjoined++; join(thr[t]); ctx[1][t].joined = 1; flush_fin(&ctx[1][t], 'x'); }
+    if (ctx[1][t].spawned && ctx[1][t].parent == 0 && !ctx[1][t].joined) { unjoined++; join(thr[t]); ctx[1][t].joined = 1; flush_fin(&ctx[1][t], 'x'); }
   tlog(&ctx[1][0], "x{}");
   P(" ## C: "); print_traces(1, 0);
   P(" # ");
@@ -523,7 +536,7 @@ static void one_case(char* line) {
     if (sum != cell[m]) ln += (size_t)snprintf(lost + ln, sizeof lost - ln, "%sc%d:%ld-of-%ld", ln ? "," : "", m, cell[m], sum);
   }
   P(" ## X: qskip=%d lost=%s overlap=%d miss=%d maxpar=%d cross=%d double=%d unfin=%d rootkill=%d stale=%d unjoined=%d",
-    n_qskip, ln ? lost : "0", n_overlap + a_overlap * 0, n_miss, n_maxpar, n_cross, n_double, unfin, n_rootkill, n_stale, unjoined);
+    n_qskip, ln ? lost : "0", n_overlap + a_overlap * 0, n_miss, n_maxpar, n_cross, n_double, unfin, n_rootkill, n_stale, unjoined + n_unjoined);
 }
 
 int main(int argc, char** argv) {
